@@ -155,6 +155,8 @@ pub fn run(p: &Params) -> Run {
     // the comparison used by WHERE / IN for an INT with a REAL (numbers compare by numeric value)
     let env = crate::c03::gen_env(&mut rng);
     crate::c03::boundary_cases(&mut run, &env, p.tier_thorough);
+    // array_unique (named in the sentence): unique by the one order, also for NaN / -0.0 / NULL elements
+    crate::c03::array_unique_cases(&mut run, &mut rng, p.n(600, 20_000));
     let n = p.n(4000, 200_000);
     for _ in 0..n {
         // mostly same-typed triples (where the order matters), sometimes mixed
